@@ -46,6 +46,7 @@ type verifKv struct {
 	out     *bufio.Writer
 	tq, eq  []*LockQueue
 	stopped bool
+	hung    bool
 }
 
 func verifKvSetup() *SLock {
@@ -105,9 +106,13 @@ func verifKvReadReply(r *bufio.Reader) ([]byte, error) {
 func (e *verifKv) closeConn() {
 	if e.client != nil {
 		_ = e.client.Close()
-		select {
-		case <-e.served:
-		case <-time.After(2 * time.Second):
+		if !e.hung {
+			// the serving goroutine ends as soon as its Read fails; a handler blocked for ever on its reply
+			// channel (hang) is abandoned together with its database
+			select {
+			case <-e.served:
+			case <-time.After(2 * time.Second):
+			}
 		}
 		e.client = nil
 	}
@@ -130,6 +135,7 @@ func (e *verifKv) newCase(t0 int64) {
 	e.tq = make([]*LockQueue, 5)
 	e.eq = make([]*LockQueue, 5)
 	e.stopped = false
+	e.hung = false
 
 	srv, cli := net.Pipe()
 	stream := NewStream(srv)
@@ -253,14 +259,14 @@ func (e *verifKv) command(args [][]byte) {
 			if e.waiting() {
 				if ticks >= 200 {
 					fmt.Fprintf(e.out, "r hang %d\n", ticks)
-					e.stopped = true
+					e.stopped, e.hung = true, true
 					return
 				}
 				e.tick()
 				ticks++
 			} else if time.Since(start) > 5*time.Second {
 				fmt.Fprintf(e.out, "r hang %d\n", ticks)
-				e.stopped = true
+				e.stopped, e.hung = true, true
 				return
 			}
 		}
